@@ -180,8 +180,8 @@ def enumerate_edits(ctx, visit, want_cli=True, skip=None, extra=False):
                 if ctx.tier == "quick" and label.endswith("/private0") and combo[2] != "set" and n % 3:
                     sampled = True
                     continue
-                # quick tier, falsy / text-bytes bases: every request that names exactly one field, a fixed third of the others
-                if ctx.tier == "quick" and label.endswith(("/falsy", "/textbytes")) and n % 3 and sum(c != "keep" for c in combo) != 1:
+                # quick tier, falsy / text-bytes bases: every request that names exactly one field, a fixed fifth of the others
+                if ctx.tier == "quick" and label.endswith(("/falsy", "/textbytes")) and n % 5 and sum(c != "keep" for c in combo) != 1:
                     sampled = True
                     continue
                 for via in (("lib", "cli") if want_cli else ("lib",)):
